@@ -1,5 +1,5 @@
 # replay of a bounded stand-in violation (C16): re-run native/c16_states.py
 import sys
-print('fock n=3 pure=False: wigner(0) on a 9 x 6 grid has shape (9, 6), the other representations return (6, 9)')
+print('n=2 pure=True cat-complex: quad_expectation(1,0.0) = [0.62239, 0.64302] on bosonic, [0.62239, 2.27449] on fock')
 print('REPLAY-VIOLATION')
 sys.exit(1)
